@@ -1,6 +1,8 @@
 package main
 
 import (
+	"go/ast"
+	"go/parser"
 	"fmt"
 	"go/token"
 	"go/types"
@@ -66,8 +68,12 @@ func (fc *FnCtx) callEffects(cc *ssa.CallCommon) effects {
 	if fc.eng.isSpecFn(callee) {
 		return eff
 	}
-	if c := fc.eng.contractFor(callee); c != nil {
-		return fc.contractEffects(c)
+	if c := fc.eng.contractFor(callee); c != nil && len(c.Logical) == 0 {
+		eff := fc.contractEffects(c)
+		if ms, ok := fc.modSorts(c, callee); ok {
+			eff.sorts = ms
+		}
+		return eff
 	}
 	if m, ok := libModels[fullName(callee)]; ok {
 		return m.eff
@@ -177,7 +183,9 @@ func (fc *FnCtx) call(ins ssa.Instruction, cc *ssa.CallCommon) {
 		setRes(fc.specFnCallSSA(callee, args))
 		return
 	}
-	if c := fc.eng.contractFor(callee); c != nil {
+	// a contract with logical variables cannot be applied at a call site (the caller would have
+	// to supply witnesses): the callee is then treated like a function without contract
+	if c := fc.eng.contractFor(callee); c != nil && len(c.Logical) == 0 {
 		var names []string
 		var typs []types.Type
 		for _, p := range callee.Params {
@@ -197,6 +205,16 @@ func (fc *FnCtx) call(ins ssa.Instruction, cc *ssa.CallCommon) {
 					typs = append(typs, fv.Type())
 					args = append(args, bp)
 				}
+			}
+		}
+		// a parameter the callee's contract declares pure must be given a provably pure function
+		for i, p := range callee.Params {
+			if c.pureParam(p.Name()) && i < len(cc.Args) {
+				g := TTrue
+				if !fc.eng.pureFuncValue(fc.fn, cc.Args[i]) {
+					g = TFalse
+				}
+				fc.oblige("pure-param", relName(callee)+": argument "+p.Name()+" is a function without side effects", pos, g)
 			}
 		}
 		setRes(fc.applyContract(c, relName(callee), names, typs, args, callee.Signature.Results(), pos, callee))
@@ -341,12 +359,22 @@ func (fc *FnCtx) applyContract(c *Contract, cname string, names []string, typs [
 		}
 	}
 	for _, r := range c.Requires {
-		t, err := fc.specBool(env, r.Text)
+		t, sks, err := fc.specBoolGoal(env, r.Text)
 		if err != nil {
 			fc.unbound = append(fc.unbound, fmt.Sprintf("call %s requires %q: %v", cname, r.Text, err))
 			continue
 		}
-		fc.oblige("pre", cname+": "+r.Text, pos, t)
+		o := fc.oblige("pre", cname+": "+r.Text, pos, t)
+		if len(sks) > 0 {
+			// goal-side quantifiers were skolemised: instantiate the hypotheses at the skolem
+			// constants, and keep the quantified form (not the skolemised one) as the fact
+			fc.addInsts(o, env, sks)
+			fc.dropLastAssertFact()
+			if qt, qerr := fc.specBool(env, r.Text); qerr == nil {
+				fc.seq++
+				fc.facts = append(fc.facts, Fact{blk: fc.curBlk, seq: fc.seq, t: qt, isAssert: true})
+			}
+		}
 	}
 	if c.Panics != nil {
 		t, err := fc.specBool(env, c.Panics.Text)
@@ -388,7 +416,13 @@ func (fc *FnCtx) applyContract(c *Contract, cname string, names []string, typs [
 					fc.unbound = append(fc.unbound, fmt.Sprintf("call %s modifies: %v", cname, err))
 					fc.havocAll("call")
 				} else {
-					fc.havocRegions(st, pre, regs)
+					var only map[Sort]bool
+					if callee != nil {
+						if ms, ok := fc.modSorts(c, callee); ok {
+							only = ms
+						}
+					}
+					fc.havocRegions(st, pre, regs, only)
 				}
 			}
 			nn := fc.freshConst("next_call", SInt)
@@ -487,6 +521,9 @@ func (e *Engine) pkgByPath(path string) *types.Package {
 type region struct {
 	obj, lo, hi Term
 	whole       bool // the whole object (maps)
+	// family: `each r lo hi : expr` -- the union over r in [flo, fhi) of the regions expr(r)
+	fam      string
+	flo, fhi Term
 }
 
 // regions evaluates modifies items in the given env (pre-state).
@@ -495,6 +532,43 @@ func (fc *FnCtx) regions(env *Env, items []string) ([]region, error) {
 	for _, it := range items {
 		text := strings.TrimSpace(it)
 		star := false
+		if strings.HasPrefix(text, "each ") {
+			colon := strings.Index(text, ":")
+			hd := strings.Fields(text[5:max(colon, 5)])
+			if colon < 0 || len(hd) != 3 {
+				return nil, fmt.Errorf("modifies item %q: want `each r lo hi : slice-expr`", it)
+			}
+			lo, err := fc.specExpr(env, hd[1])
+			if err != nil {
+				return nil, err
+			}
+			hi, err := fc.specExpr(env, hd[2])
+			if err != nil {
+				return nil, err
+			}
+			lot, ok1 := fc.toIntTerm(env.coerce(lo, specIntType))
+			hit, ok2 := fc.toIntTerm(env.coerce(hi, specIntType))
+			if !ok1 || !ok2 {
+				return nil, fmt.Errorf("modifies item %q: bounds are not integers", it)
+			}
+			fc.nfam++
+			bv := Term{fmt.Sprintf("r!qfam%d", fc.nfam), SInt}
+			sub := env.sub()
+			sub.binds[hd[0]] = binding{Leaf(bv), specIntType}
+			sv, err := fc.specExpr(sub, strings.TrimSpace(text[colon+1:]))
+			if err != nil {
+				return nil, err
+			}
+			if sv.v.K != KSlice {
+				return nil, fmt.Errorf("modifies item %q: family member is not a slice", it)
+			}
+			c := int64(1)
+			if st, ok := sv.t.Underlying().(*types.Slice); ok {
+				c = cellsOf(st.Elem())
+			}
+			out = append(out, region{obj: sv.v.Obj(), lo: sv.v.Off(), hi: Add(sv.v.Off(), Mul(sv.v.Len(), IntLit(c))), fam: bv.S, flo: lot, fhi: hit})
+			continue
+		}
 		if strings.HasPrefix(text, "*") {
 			star = true
 			text = text[1:]
@@ -525,13 +599,46 @@ func (fc *FnCtx) regions(env *Env, items []string) ([]region, error) {
 func inRegions(regs []region, o, f Term) Term {
 	var cs []Term
 	for _, r := range regs {
-		if r.whole {
+		switch {
+		case r.whole:
 			cs = append(cs, Eq(o, r.obj))
-		} else {
+		case r.fam != "":
+			bv := Term{r.fam, SInt}
+			body := And(Le(r.flo, bv), Lt(bv, r.fhi), Eq(o, r.obj), Le(r.lo, f), Lt(f, r.hi))
+			cs = append(cs, Term{fmt.Sprintf("(exists ((%s Int)) %s)", r.fam, body.S), SBool})
+		default:
 			cs = append(cs, And(Eq(o, r.obj), Le(r.lo, f), Lt(f, r.hi)))
 		}
 	}
 	return Or(cs...)
+}
+
+// frameParts splits a frame formula into its per-heap conjuncts, each labelled by the heap it
+// talks about, so that every heap sort is a separate (smaller) obligation.
+func frameParts(f Term) (labels []string, parts []Term) {
+	ps := []string{f.S}
+	if strings.HasPrefix(f.S, "(and ") {
+		ps = splitSexprs(f.S[5 : len(f.S)-1])
+	}
+	for _, p := range ps {
+		label := "maps"
+		if i := strings.LastIndex(p, ":pattern ((select (select H"); i >= 0 {
+			rest := p[i+len(":pattern ((select (select "):]
+			name := rest
+			if j := strings.IndexAny(rest, " )"); j >= 0 {
+				name = rest[:j]
+			}
+			label = "heap"
+			for _, tag := range []string{"bool", "bv8", "bv16", "bv32", "bv64", "int", "str", "f64"} {
+				if strings.Contains(name, "_"+tag) {
+					label = tag
+				}
+			}
+		}
+		labels = append(labels, label)
+		parts = append(parts, Term{p, SBool})
+	}
+	return
 }
 
 // frameFormula: every pre-existing cell outside regs is unchanged between pre and post.
@@ -561,9 +668,173 @@ func frameFormula(pre, post *State, regs []region) Term {
 	return And(cs...)
 }
 
+// modSorts: the heap sorts a callee with a `modifies` list can change, from the static types
+// of the listed items. Only for callees without reference-typed results (a returned fresh
+// object may have cells of any sort). ok=false means "assume every sort".
+func (fc *FnCtx) modSorts(c *Contract, callee *ssa.Function) (map[Sort]bool, bool) {
+	if !c.HasMod || len(c.Modifies) == 0 || callee == nil {
+		return nil, false
+	}
+	res := callee.Signature.Results()
+	for i := 0; i < res.Len(); i++ {
+		switch res.At(i).Type().Underlying().(type) {
+		case *types.Basic:
+		default:
+			return nil, false
+		}
+	}
+	scope := map[string]types.Type{}
+	for _, p := range callee.Params {
+		scope[p.Name()] = p.Type()
+	}
+	for _, fv := range callee.FreeVars {
+		if pt, ok := fv.Type().Underlying().(*types.Pointer); ok {
+			scope[fv.Name()] = pt.Elem()
+		}
+	}
+	out := map[Sort]bool{}
+	staticPredLookup = func(name string) ([]string, string, bool) {
+		if callee.Pkg == nil {
+			return nil, "", false
+		}
+		pd, ok := fc.eng.contracts.Preds[contractKey(callee.Pkg.Pkg.Path(), name)]
+		if !ok {
+			return nil, "", false
+		}
+		return pd.Params, pd.Body, true
+	}
+	defer func() { staticPredLookup = nil }()
+	for _, it := range c.Modifies {
+		text := strings.TrimSpace(it)
+		if strings.HasPrefix(text, "each ") {
+			colon := strings.Index(text, ":")
+			hd := strings.Fields(text[5:max(colon, 5)])
+			if colon < 0 || len(hd) != 3 {
+				return nil, false
+			}
+			scope[hd[0]] = types.Typ[types.Int]
+			text = strings.TrimSpace(text[colon+1:])
+		}
+		star := strings.HasPrefix(text, "*")
+		if star {
+			text = text[1:]
+		}
+		ex, err := parser.ParseExpr(text)
+		if err != nil {
+			return nil, false
+		}
+		t := staticSpecType(ex, scope)
+		if t == nil {
+			return nil, false
+		}
+		switch u := t.Underlying().(type) {
+		case *types.Slice:
+			if star {
+				return nil, false
+			}
+			fc.sortsOfType(u.Elem(), out)
+		case *types.Pointer:
+			if !star {
+				return nil, false
+			}
+			fc.sortsOfType(u.Elem(), out)
+		default:
+			return nil, false
+		}
+	}
+	return out, true
+}
+
+var staticPredLookup func(name string) (params []string, body string, ok bool)
+
+func staticSpecType(e ast.Expr, scope map[string]types.Type) types.Type {
+	switch x := e.(type) {
+	case *ast.Ident:
+		return scope[x.Name]
+	case *ast.ParenExpr:
+		return staticSpecType(x.X, scope)
+	case *ast.CallExpr:
+		if id, ok := x.Fun.(*ast.Ident); ok && id.Name == "old" && len(x.Args) == 1 {
+			return staticSpecType(x.Args[0], scope)
+		}
+		if id, ok := x.Fun.(*ast.Ident); ok && staticPredLookup != nil {
+			if params, body, found := staticPredLookup(id.Name); found && len(params) == len(x.Args) {
+				sub := map[string]types.Type{}
+				for k, v := range scope {
+					sub[k] = v
+				}
+				for i, p := range params {
+					sub[p] = staticSpecType(x.Args[i], scope)
+					if sub[p] == nil {
+						sub[p] = types.Typ[types.Int]
+					}
+				}
+				if pe, err := parser.ParseExpr(body); err == nil {
+					return staticSpecType(pe, sub)
+				}
+			}
+		}
+	case *ast.StarExpr:
+		if t := staticSpecType(x.X, scope); t != nil {
+			if pt, ok := t.Underlying().(*types.Pointer); ok {
+				return pt.Elem()
+			}
+		}
+	case *ast.SelectorExpr:
+		t := staticSpecType(x.X, scope)
+		if t == nil {
+			return nil
+		}
+		if pt, ok := t.Underlying().(*types.Pointer); ok {
+			t = pt.Elem()
+		}
+		if st, ok := t.Underlying().(*types.Struct); ok {
+			for i := 0; i < st.NumFields(); i++ {
+				if st.Field(i).Name() == x.Sel.Name {
+					return st.Field(i).Type()
+				}
+			}
+		}
+	case *ast.IndexExpr:
+		t := staticSpecType(x.X, scope)
+		if t == nil {
+			return nil
+		}
+		switch u := t.Underlying().(type) {
+		case *types.Slice:
+			return u.Elem()
+		case *types.Array:
+			return u.Elem()
+		case *types.Pointer:
+			if a, ok := u.Elem().Underlying().(*types.Array); ok {
+				return a.Elem()
+			}
+		}
+	case *ast.SliceExpr:
+		t := staticSpecType(x.X, scope)
+		if t == nil {
+			return nil
+		}
+		switch u := t.Underlying().(type) {
+		case *types.Slice:
+			return t
+		case *types.Array:
+			return types.NewSlice(u.Elem())
+		case *types.Pointer:
+			if a, ok := u.Elem().Underlying().(*types.Array); ok {
+				return types.NewSlice(a.Elem())
+			}
+		}
+	}
+	return nil
+}
+
 // havocRegions replaces all heaps by fresh ones constrained by the frame.
-func (fc *FnCtx) havocRegions(st, pre *State, regs []region) {
+func (fc *FnCtx) havocRegions(st, pre *State, regs []region, only map[Sort]bool) {
 	for _, hs := range heapSorts {
+		if only != nil && !only[hs] {
+			continue
+		}
 		st.heap[hs] = fc.freshConst("Hc_"+sortTag(hs), heapSort(hs))
 	}
 	hasMap := false
@@ -748,9 +1019,9 @@ func (fc *FnCtx) appendBuiltin(cc *ssa.CallCommon, args []Value, pos token.Pos) 
 	newCap := fc.freshConst("appcap", SInt)
 	fc.assume(And(Ge(newCap, newLen), Le(newCap, Term{"maxSliceCap", SInt})))
 	fc.assume(Le(Mul(newLen, IntLit(fc.eng.sizeofType(elem))), Term{"maxAlloc", SInt}))
-	obj := fc.define(fc.freshName("appobj"), Ite(grow, fresh, s.Obj()))
-	off := fc.define(fc.freshName("appoff"), Ite(grow, IntLit(0), s.Off()))
-	cp := fc.define(fc.freshName("appcap"), Ite(grow, newCap, s.Cap()))
+	obj := fc.defineEq(fc.freshName("appobj"), Ite(grow, fresh, s.Obj()))
+	off := fc.defineEq(fc.freshName("appoff"), Ite(grow, IntLit(0), s.Off()))
+	cp := fc.defineEq(fc.freshName("appcap"), Ite(grow, newCap, s.Cap()))
 	sorts := map[Sort]bool{}
 	fc.sortsOfType(elem, sorts)
 	k := Term{"k!q", SInt}
@@ -963,10 +1234,37 @@ func (e *Engine) heapPure(fn *ssa.Function) bool {
 	return ok
 }
 
+// pureFuncValue: v, used inside fn, is a function value that a contract declares pure: a
+// parameter of fn noted `pure-param`, or such a parameter of the enclosing function read
+// through a captured variable.
+func (e *Engine) pureFuncValue(fn *ssa.Function, v ssa.Value) bool {
+	switch x := v.(type) {
+	case *ssa.Parameter:
+		if c := e.contractFor(fn); c != nil && c.pureParam(x.Name()) {
+			return true
+		}
+	case *ssa.UnOp:
+		if fv, ok := x.X.(*ssa.FreeVar); ok && x.Op == token.MUL && fn.Parent() != nil {
+			if c := e.contractFor(fn.Parent()); c != nil && c.pureParam(fv.Name()) {
+				return true
+			}
+		}
+	case *ssa.MakeClosure:
+		if f, ok := x.Fn.(*ssa.Function); ok {
+			return e.heapPure(f)
+		}
+	case *ssa.Function:
+		return e.heapPure(x)
+	}
+	return false
+}
+
 func (e *Engine) heapPureBody(fn *ssa.Function) bool {
-	if len(fn.Blocks) == 0 || len(fn.FreeVars) > 0 {
+	if len(fn.Blocks) == 0 {
 		return false
 	}
+	// closures: reading captured variables is fine; a store through a captured variable has a
+	// FreeVar (not an Alloc) as base and is rejected below
 	localMap := map[ssa.Value]bool{}
 	for _, b := range fn.Blocks {
 		for _, ins := range b.Instrs {
@@ -998,6 +1296,9 @@ func (e *Engine) heapPureBody(fn *ssa.Function) bool {
 				}
 				if cc.IsInvoke() {
 					return false
+				}
+				if e.pureFuncValue(fn, cc.Value) {
+					continue
 				}
 				callee, ok := cc.Value.(*ssa.Function)
 				if !ok {
@@ -1041,6 +1342,8 @@ func calleeDisplayName(cc *ssa.CallCommon) string {
 		return v.String()
 	case *ssa.MakeClosure:
 		return v.Fn.(*ssa.Function).String()
+	case *ssa.Parameter:
+		return "dynamic." + v.Name()
 	}
 	return "dynamic"
 }
